@@ -425,3 +425,7 @@ fn c14_k_day_to_week() {
   assert!(unsafe { WK_ASKED } == (d.get_year(), d.get_month(), 1) && unsafe { WK_FROM } == (d.get_year(), d.get_month(), 1), "both counted from the first of the month");
   kani::cover!(pos == 30 && off == 6, "day_to_week reachable (sixth week)");
 }
+
+// unvalidated constructors for harnesses in other modules whose inputs are already constrained to valid dates
+pub fn mk_day(y: isize, m: usize, d: usize) -> SolarDay { SolarDay { month: SolarMonth { parent: AbstractTyme::new(), year: SolarYear { year: y }, month: m }, day: d } }
+pub fn mk_time(y: isize, m: usize, d: usize, h: usize, mi: usize, s: usize) -> SolarTime { SolarTime { day: mk_day(y, m, d), hour: h, minute: mi, second: s } }
